@@ -134,4 +134,7 @@ def for_each_to_index(body):
 import glob as _glob, importlib as _il, os as _os
 for _f in sorted(_glob.glob(_os.path.join(_os.path.dirname(__file__), 'rules_*.py'))):
     _m = _il.import_module('vx.' + _os.path.basename(_f)[:-3])
-    RULES.update(getattr(_m, 'RULES', {}))
+    for _k, _v in getattr(_m, 'RULES', {}).items():
+        if _k in RULES:
+            raise RuntimeError('duplicate rule name %s in %s' % (_k, _f))
+        RULES[_k] = _v
